@@ -6,6 +6,7 @@ TRUSTED = [
 ]
 ASSUMPTIONS = [
     "lt is a strict weak order for the Heap minimality theorem (irreflexive, transitive, negatively transitive); IsSorted theorems hold for every lt",
+    "sort theorems: the list is well-formed before the call (C16 invariant WF, which every reachable world satisfies); sortedness of SortMerge needs only asymmetry of lt; SortQuick's sorter is a Section hypothesis (stable_sort_contract)",
 ]
 EXPLANATION = ("Theorems in coq/Props/C17.v over all lists / all push-pop sequences / all comparison functions; "
                "the model is tied to /repo by re-running it under vm_compute on every generated case and comparing with "
@@ -13,7 +14,11 @@ EXPLANATION = ("Theorems in coq/Props/C17.v over all lists / all push-pop sequen
 READY = True
 LEVEL_TEXT = ("Machine-checked Coq theorems: IsSorted(lt) <-> no adjacent pair out of order for every list and every lt; "
               "Heap: for every push/pop sequence popped+remaining is a permutation of pushed, and for every strict weak order each pop "
-              "returns a value nothing inside is lt. Model tied to /repo by differential correspondence on every run.")
-LEVEL_NOTE = ("Trusted: Coq kernel + vm_compute; hand-written list-level model of Heap.Push's backward scan and IsSorted; "
-              "correspondence is differential testing (1.5k cases quick); sort.SliceStable trusted.")
+              "returns a value nothing inside is lt; SortMerge (pointer-level model): permutation of the same elements for every lt, "
+              "sorted for every asymmetric lt, result well-formed and owned by the receiver; SortQuick: permutation, sorted and stable "
+              "for every sorter meeting the stable-sort contract (the model's executable sorter meets it for every strict weak order). "
+              "Model tied to /repo by differential correspondence on every run.")
+LEVEL_NOTE = ("Trusted: Coq kernel + vm_compute; hand-written list-level model of Heap.Push's backward scan and IsSorted, "
+              "pointer-level model of SortMerge/SortQuick (coq/Model/ListHeap.v); correspondence is differential testing "
+              "(1.5k cases quick); sort.SliceStable is trusted to meet the stable-sort contract.")
 TECHNIQUE = "Coq proof (induction over lists / op sequences) + vm_compute correspondence against dt.List/dt.Heap"
